@@ -26,6 +26,10 @@ fn menu(n: usize, party: usize) -> Vec<Stray> {
 
 pub fn main(tier: Tier, seed: u64) -> i32 {
     let mut rep = Report::new("C14", tier, seed, "fault_enumeration");
+    if let Err(e) = crate::srvx::selftest(seed) {
+        rep.machinery(e);
+        return rep.finish();
+    }
     let cfgs: Vec<(usize, usize, Vec<usize>, Vec<bool>)> = if tier.is_thorough() {
         vec![(2, 0, vec![0, 1], vec![true, true]), (2, 1, vec![], vec![true, true]), (3, 1, vec![0, 2], vec![true, true, true]), (3, 0, vec![], vec![true, false, true])]
     } else {
